@@ -154,14 +154,19 @@ def main(argv):
         for sl, kind, case, detail in viol:
             if reported >= 3:
                 break
-            small = runner.shrink_case(sl, case, kind, model)
+            uninterruptible = "did not terminate" in str(detail) or "worker process died" in str(detail)
+            # a case that hangs or kills its process must never be re-run inside this process
+            small = case if uninterruptible else runner.shrink_case(sl, case, kind, model)
             key = getattr(sl, "finding_key", lambda c: fingerprint(c))(small)
             if key in seen_keys:
                 continue
             seen_keys.add(key)
             kf = [k for k in known if k.get("fingerprint") == key]
-            findings, _ = runner._run_case(sl, small, model)
-            det = next((d for k, d in findings if k == kind), detail)
+            if uninterruptible:
+                det = detail
+            else:
+                findings, _ = runner._run_case(sl, small, model)
+                det = next((d for k, d in findings if k == kind), detail)
             if kf:
                 lines.append(f"KNOWN-FINDING: property={prop} {kf[0].get('what', '')}")
                 continue
@@ -176,7 +181,7 @@ def main(argv):
             reported += 1
         if disag and violations == 0 and not any(l.startswith("KNOWN-FINDING") for l in lines):
             sl, kind, case, detail = disag[0]
-            small = runner.shrink_case(sl, case, kind, model)
+            small = case if ("did not terminate" in str(detail) or "worker process died" in str(detail)) else runner.shrink_case(sl, case, kind, model)
             payload = {"property": prop, "kind": "correspondence", "slice_or_theorem": "corr:" + sl.name,
                        "seed": seed, "input": small, "detail": detail,
                        "note": "model and implementation disagree; no input violating the property itself was found",
